@@ -188,7 +188,8 @@ fn run_f64(k: Kind, xs: &[f64], out: &mut TrialOut) {
         let nw = w.len() as f64;
         let env_mean = 64.0 * eps * steps * big;
         let env_var = 64.0 * eps * steps * (n as f64 + 1.0) * 4.0 * big * big / (nw - 1.0).max(1.0);
-        let var_e = ow::sample_var(w).f();
+        // (the exact quantities of one step are plain floats afterwards: their rationals are given back)
+        let (var_e, em) = crate::xq::scoped(|| (ow::sample_var(w).f(), ow::mean(w).f()));
         let std_e = var_e.max(0.0).sqrt();
         let tol_std = if var_e > env_var { 2.0 * env_var / std_e } else { env_var.sqrt() };
         let (Some(g), Ex::Val(e)) = (got, refs[t]) else {
@@ -235,7 +236,7 @@ fn run_f64(k: Kind, xs: &[f64], out: &mut TrialOut) {
             return;
         }
         if let (Kind::Welford(_), Some((m, var))) = (k, v.aux()) {
-            let (em, ev) = (ow::mean(w).f(), var_e);
+            let ev = var_e;
             out.cell("WelfordOnline/getters", 2);
             if !((m - em).abs() <= env_mean) {
                 fail(out, &k, "f64", "mean-getter", t, format!("{:e}", m), format!("{:e}", em), xs, &format!("(envelope {:e})", env_mean));
